@@ -169,8 +169,26 @@ fn spawn_victim(pgid: i32) -> i32 {
     }
 }
 
-/// (state, pending numbers) of a sacrificial process of this process.
+/// (state, pending numbers) of a sacrificial process of this process.  KILL
+/// and STOP cannot be blocked: while one of them is still pending in a process
+/// that runs, the kernel has not acted on it yet, so the observation is
+/// repeated (bounded) until the state has settled.
 fn observe_victim(pid: i32) -> (String, Vec<i64>) {
+    let mut last = observe_victim_once(pid);
+    for _ in 0..5000 {
+        let unsettled = last.0 == "run" && (last.1.contains(&(libc::SIGKILL as i64)) || last.1.contains(&(libc::SIGSTOP as i64)));
+        if !unsettled {
+            break;
+        }
+        std::thread::sleep(std::time::Duration::from_millis(1));
+        let next = observe_victim_once(pid);
+        // a state reported by waitpid is reported only once
+        last = if next.0 == "gone" { last } else { next };
+    }
+    last
+}
+
+fn observe_victim_once(pid: i32) -> (String, Vec<i64>) {
     let mut status: libc::c_int = 0;
     let r = unsafe { libc::waitpid(pid, &mut status, libc::WNOHANG | libc::WUNTRACED) };
     let mut state = "run".to_string();
@@ -541,7 +559,9 @@ fn render_case(c: &Case, p: &Pids) -> (String, usize) {
             if c.w.first().map(|s| s.as_str()) == Some("-p") {
                 (format!("(trap {words})\nmark\n"), 1)
             } else {
-                let conds = render_words(&c.w[1.min(c.w.len())..], p, "");
+                // the first operand is the action unless it is an unsigned integer
+                let first_is_cond = c.w.first().is_some_and(|a| !a.is_empty() && a.chars().all(|ch| ch.is_ascii_digit()));
+                let conds = render_words(&c.w[if first_is_cond { 0 } else { 1.min(c.w.len()) }..], p, "");
                 (format!("(trap {words})\nmark\n(trap {words}; trap -p {conds})\nmark\n"), 2)
             }
         }
@@ -1073,7 +1093,13 @@ fn random_case(rng: &mut StdRng, plat: &Value) -> Case {
         6 | 7 => {
             c.fam = "trap".into();
             c.po = false;
-            c.w.push(pick(rng, &["-p", "-", ""]).to_string());
+            let hi = plat["rtmax"].as_i64().unwrap();
+            match rng.gen_range(0..8) {
+                // the action omitted: the first operand is an unsigned integer
+                0 => c.w.push(rng.gen_range(0..=hi + 3).to_string()),
+                1 => c.w.push(pick(rng, &["true", "false", "exit"]).to_string()),
+                _ => c.w.push(pick(rng, &["-p", "-", ""]).to_string()),
+            }
             let k = *pick(rng, &[1usize, 1, 1, 2, 3]);
             for _ in 0..k {
                 let x = match rng.gen_range(0..6) {
@@ -1123,7 +1149,8 @@ fn random(args: &[String]) {
     let sys = opt(args, "--sys").unwrap_or("sim").to_string();
     let plat: Value = serde_json::from_str(&std::fs::read_to_string(opt(args, "--platform").expect("--platform")).unwrap()).unwrap();
     let n = opt_usize(args, "--n", 1000);
-    let mut rng = StdRng::seed_from_u64(seed().wrapping_mul(0x9E3779B97F4A7C15) ^ if sys == "sim" { 14 } else { 41 });
+    let stream = opt_usize(args, "--stream", 0) as u64;
+    let mut rng = StdRng::seed_from_u64(seed().wrapping_mul(0x9E3779B97F4A7C15) ^ if sys == "sim" { 14 } else { 41 } ^ (stream << 32));
     let mut cases = vec![];
     while cases.len() < n {
         let c = random_case(&mut rng, &plat);
